@@ -350,7 +350,13 @@ def validate(rc):
         if k:
             kinds[k] = s
             rc.ob(f"check_model raises unless {k}: guard `{txt[:70]}`")
-    for need in ("cpd present", "evidence == parents", "state names defined", "columns sum to one", "parent cardinality", "parent state names"):
+    # the number of state names of every variable of a CPD equals its cardinality (else a "validated" model maps state numbers to names that do not exist / misses names)
+    for s_ in raises:
+        for t, pol in s_.conds:
+            if pol and (tm.is_(t, "len(_c.state_names[_v]) != _k") is not None or tm.is_(t, "_k != len(_c.state_names[_v])") is not None):
+                kinds["state names count"] = s_
+                rc.ob(f"check_model raises unless state names count: guard `{norm(t, 70)}`")
+    for need in ("cpd present", "evidence == parents", "state names defined", "state names count", "columns sum to one", "parent cardinality", "parent state names"):
         if need not in kinds:
             rc.fail(f, f.node, f"check_model no longer rejects a model that violates: {need}", construct=f"missing check: {need}")
     # return True only at the very end
@@ -395,6 +401,8 @@ def defuse(rc):
     _sh.defuse_rule(rc, _sh.anchor_files("C05"))
 
 MUTANTS = [
+    dict(kind="break", name="check-model-ignores-state-name-count", file=BN, expect="C05.validate",
+         old="                        if len(cpd.state_names[var]) != card:", new="                        if False:"),
     dict(kind="break", name="is-valid-cpd-needs-subclass-method", file=DF, expect="C05.validate",
          old="            DiscreteFactor.marginalize(\n                self, self.scope()[:1], inplace=False\n            ).values.flatten(),", new="            self.to_factor().marginalize(self.scope()[:1], inplace=False).values.flatten(),"),
     dict(kind="break", name="ctor-fortran-flatten", file=CPD, expect="C05.layout",
